@@ -377,7 +377,7 @@ func main() {
 			{Name: "repeated-ids/inproc", Opt: base, Quick: 1, Thorough: 2, Prune: true, Body: dupBody("inproc"), Final: dupFinal},
 			{Name: "repeated-ids/tcp", Opt: base, Quick: 1, Thorough: 2, Prune: true, Body: dupBody("tcp"), Final: dupFinal},
 			mk("inproc/2senders", "inproc", 0, true, base, -1, 1),
-			mk("tcp/cap64B/2senders", "tcp", 64, true, base, 1, 1),
+			mk("tcp/cap64B/2senders", "tcp", 64, true, base, 1, 2),
 			mk("ws/cap64B/2senders", "ws", 64, true, base, 1, 1),
 		},
 	})
